@@ -27,6 +27,8 @@ mod c15x;
 mod c16;
 mod c17;
 mod c18;
+mod c07;
+mod c07s;
 mod c08;
 mod c09;
 mod c06;
@@ -140,6 +142,7 @@ fn main() {
         "C03" => histprops::c03(&cfg),
         "C04" => c04::run(&cfg),
         "C05" => histprops::c05(&cfg),
+        "C07" => c07::run(&cfg),
         "C08" => c08::run(&cfg),
         "C09" => c09::run(&cfg),
         "C10" => c10::run(&cfg),
